@@ -15,14 +15,14 @@ REQUIRED_THEOREMS = ["Gv.Props.C01." + n for n in [
     "three_frames_same_count_iff",
     # names stay pairwise distinct unless the caller edits names
     "step_names_nodup", "run_names_nodup",
-    # refinement: Go-shaped container = plain list reference model, all 31 operations, all histories
+    # refinement: Go-shaped container = plain list reference model, all 36 operations, all histories
     "step_refines", "run_refines", "compress_empty_unchanged", "good_of_empty_bag", "good_of_empty_align", "obs_byName", "obs_idByName", "obs_length"]]
 LEVEL_TEXT = ("Lean theorems, all by induction over operation histories of any length and for arbitrary arguments: "
-              "(1) refinement `step_refines` / `run_refines`: for each of the 31 operations of the history language (add under the "
+              "(1) refinement `step_refines` / `run_refines`: for each of the 36 operations of the history language (add under the "
               "three duplicate-name policies, ignore, clear, append, concat, rename, appendId, cleanNames, trimNames, trimAuto, sort, "
               "permute=ShuffleSequences, filter, dedup, rmSeqs/RemoveGapSeqs, translate, clone, sample, toUpper, toLower, replace, "
               "setChar, trimSeqs, autoAlpha, revcomp=ReverseComplement, replaceChar, rmGapSites=RemoveGapSites, compress=Compress, unalign=Unalign - after which the history continues on the NEW plain sequence set it returns, "
-              "renameRe=RenameRegexp with the values of the regular-expression substitution supplied per row, setAlpha=SetAlphabet), whenever the plain list-of-(name,sequence) reference model specifies the outcome, the "
+              "renameRe=RenameRegexp with the values of the regular-expression substitution supplied per row, setAlpha=SetAlphabet, revcompSeqs=ReverseComplementSequences on a list of names, diffFirst=DiffWithFirst, replaceMatch=ReplaceMatchChars, mask=Mask, maskOcc=MaskOccurences/MaskUnique), whenever the plain list-of-(name,sequence) reference model specifies the outcome, the "
               "implementation-shaped model (ordered rows with pointer ids + separate name index + allocation counter + cached "
               "alignment length) yields exactly that content (names, row order, residues, policy, alphabet, kind) and that status, and "
               "the strong invariant (index exact and pointing to the first row of each name, rectangular, alphabet never BOTH) holds "
@@ -42,12 +42,15 @@ LEVEL_NOTE = ("Trusted: Lean kernel; harness/oracle/driver; the hand-written mod
               "implementation on generated histories only; regexp (CleanNames is modelled directly; for RenameRegexp the harness "
               "evaluates Go's regexp on every name before the call and hands the values to the model in the step's status), fmt, "
               "sort.SliceStable, math/rand (replica) are external.")
-TECHNIQUE = "Lean 4 proof (refinement of the Go-shaped container to a plain-list reference model for all 31 operations, representation / rectangularity / distinct-names invariants, all by induction over histories) + differential correspondence"
+TECHNIQUE = "Lean 4 proof (refinement of the Go-shaped container to a plain-list reference model for all 36 operations, representation / rectangularity / distinct-names invariants, all by induction over histories) + differential correspondence"
 RULE = ("random histories of 1..12 (quick) / 1..40 (thorough) operations over alignments (0..5 rows x 0..8 columns) and "
         "sequence sets with ragged lengths, duplicate names, special characters in names, all three duplicate-name policies, "
         "boundary arguments; stratum around Unalign / RenameRegexp (empty object, one row, all-gap rows, names made equal before "
         "Unalign or by the expression, expressions that do not compile, then by-name accesses and alignment-only operations on the "
-        "sequence set); the full observation vector is compared after every operation; non-trivial = at least two "
+        "sequence set); stratum around the in-place residue operations (ReverseComplementSequences with known / unknown / repeated "
+        "names, names shared by two rows, residues without a complement, wrong alphabet, no row, no column, ragged sequence sets; DiffWithFirst / ReplaceMatchChars on rows close to the first one, points "
+        "already present, one row, no row, rows left ragged by a failed Replace); stratum around Mask / MaskUnique / MaskOccurences (windows at and beyond both "
+        "ends, every replacement mode, protected gaps / reference residues, reference absent or shared by two rows, no row, no column); the full observation vector is compared after every operation; non-trivial = at least two "
         "state-changing operations")
 PARTIAL = ["the refinement theorem claims the outcome of a step only where the reference model specifies it (`Spec.stepOp` returns "
            "`some`); by design it returns `none` - and nothing is claimed, the history theorem `run_refines` stops there - for: a "
@@ -58,9 +61,9 @@ PARTIAL = ["the refinement theorem claims the outcome of a step only where the r
            "ShuffleSequences / Sample are modelled with their permutation supplied (Op.permute / Op.sample; the theorems assume it is a "
            "genuine permutation of the positions, `OpWF`/`OpWFR`); in the correspondence the oracle resolves it with the Go math/rand "
            "replica of C10 (that the replica's shuffle is a permutation for every seed is C10.shuffle_every_seed)",
-           "the history language (Lean `Op`, oracle decoder, generator) has 31 operations (ReverseComplement, ReplaceChar, "
+           "the history language (Lean `Op`, oracle decoder, generator) has 36 operations (ReverseComplement, ReplaceChar, "
            "RemoveGapSites and Compress through the C06 / C12 / C13 models; Unalign, whose result replaces the current object; "
-           "RenameRegexp; SetAlphabet). RenameRegexp is modelled from the point where the regular expression has been evaluated: `Op.renameRe ok "
+           "RenameRegexp; SetAlphabet; ReverseComplementSequences, which reaches its rows through the name index; DiffWithFirst and ReplaceMatchChars, which rewrite every row but the first against the first - an index panic, `PANIC`, when a row is too short, possible only after an operation that reported an error; Mask and MaskOccurences / MaskUnique through the C15 row-level model, with the reference sequence looked up in the name index, the cached length, in-place write-back and the index panics of short rows - the reference runs the same C15 function on the plain rows, whose meaning is C15.mask_cells / maskOcc_cells / mask_ok_iff / maskOcc_ok_iff; residues >= 130 with MAJ, an index panic in Go, are outside the model as in C15). RenameRegexp is modelled from the point where the regular expression has been evaluated: `Op.renameRe ok "
            "names` carries whether it compiled and the value of ReplaceAllString for every row (Go's regexp is external); the model "
            "covers what the method does with those names - in-place rename, name map in row order, rebuildIndex, collisions kept. "
            "NewSeqBag ends the process for an alphabet other than the three it knows: the model answers `EXIT` and the reference "
@@ -193,7 +196,8 @@ def gen_hist(rng, maxops):
             ops.append(renamere_op(rng))
             changing += 1
         else:
-            ops.append(rng.choice(["revcomp", "compress", "rmgapsites:%s:%d" % (rng.choice(["0", "1", "1/2", "1/3", "2/3"]), rng.randint(0, 1)),
+            ops.append(rng.choice(["revcomp", "compress", "revcompseqs:" + names_arg(rng, pool), "diffwithfirst", "replacematch", mask_op(rng, pool, curL[0]),
+                                   "rmgapsites:%s:%d" % (rng.choice(["0", "1", "1/2", "1/3", "2/3"]), rng.randint(0, 1)),
                                    "replacechar:%s:%d:%s" % (pct(rng.choice(pool + ["zz"])), rng.randint(-1, 8), rng.choice("ACGT-N"))]))
             changing += 1
     return Case("hist", [kind, alpha_id, prow(rows), ";".join(ops) if ops else "_"], changing >= 2, "hist-" + kind)
@@ -232,7 +236,7 @@ def gen_alias(rng):
     arg = [(n, rseq(rng, alpha, rng.choice([L, L, rng.randint(1, 4)]))) for n in rng.sample(pool + ["zz"], rng.randint(1, 3))]
     ops.append(rng.choice(["concat:", "concat:", "append:"]) + prow(arg))
     for _ in range(rng.randint(1, 3)):
-        ops.append(rng.choice(["toupper", "tolower", "setchar:%d:%d:N" % (rng.randint(0, 2), rng.randint(0, L)),
+        ops.append(rng.choice(["toupper", "tolower", "setchar:%d:%d:N" % (rng.randint(0, 2), rng.randint(0, L)), "diffwithfirst", "replacematch",
                                "replace:%s:%s" % (rng.choice("acgtACGT"), rng.choice("nN-")), "trimseqs:1:%d" % rng.randint(0, 1)]))
     if rng.random() < 0.4:
         ops.append("concat:" + prow([(n, rseq(rng, alpha, 2)) for n in rng.sample(pool, 2)]))
@@ -310,7 +314,107 @@ def gen_unalign_rename(rng):
     return Case("hist", [kind, alpha_id, prow(rows), ";".join(ops)], True, "hist-unalign-rename-" + shape)
 
 
+def names_arg(rng, pool, extra=("zz", "a_0001")):
+    """a list of names on the wire (`_` = none): known, unknown and repeated names"""
+    k = rng.choice([0, 1, 1, 2, 2, 3, 4])
+    nm = [rng.choice(list(pool) + list(extra)) for _ in range(k)]
+    if nm and rng.random() < 0.3:
+        nm.append(nm[0])                                   # a name given twice
+    return "/".join(pct(n) for n in nm) if nm else "_"
+
+
+MASKREPS = ["_", "AMBIG", "GAP", "MAJ", "MAJ", "N", "X", "%2A", "%2D", "%2E", "NN", "maj"]
+
+
+def mask_op(rng, pool, L):
+    ref = rng.choice(["_", "_"] + [pct(n) for n in pool] + ["zz"])
+    k = rng.random()
+    if k < 0.5:
+        return "mask:%s:%d:%d:%s:%d:%d" % (ref, rng.choice([0, 0, 1, 2, L - 1, L, L + 1, -1]), rng.choice([0, 1, 2, L, L + 3, -1]),
+                                           rng.choice(MASKREPS), rng.randint(0, 1), rng.randint(0, 1))
+    if k < 0.75:
+        return "maskuniq:%s:%s" % (ref, rng.choice(MASKREPS))
+    return "maskocc:%s:%d:%s" % (ref, rng.choice([-1, 0, 1, 2, 3, 100]), rng.choice(MASKREPS))
+
+
+def gen_mask(rng):
+    """histories around Mask / MaskUnique / MaskOccurences: windows at and beyond both ends, empty and negative windows, every
+    replacement mode (default, AMBIG, GAP, MAJ with ties, one character, a string that is none of these), gaps and reference
+    residues protected or not, the reference absent / given twice among the rows (after a rename) / not the first row, columns with
+    unique and repeated residues, no row, one row, no column, wrong alphabet for AMBIG, rows left ragged by a failed Replace"""
+    alpha_id = rng.choice([1, 1, 1, 0, 3, 2])
+    alpha = "ARNDX-" if alpha_id == 0 else rng.choice(["ACGT-", "ACGTN-acgt", "AC-"])
+    L = rng.choice([0, 1, 2, 4, 6])
+    pool = rng.sample(NAMES, 4)
+    nrows = rng.choice([0, 1, 2, 3, 4, 5])
+    cols = ["".join(rng.choice(alpha) for _ in range(nrows)) for _ in range(L)]
+    rows = [(pool[i % len(pool)] if i < len(pool) else "r%d" % i, "".join(c[i] for c in cols)) for i in range(nrows)]
+    ops = []
+    if rng.random() < 0.25:
+        olds = rng.sample(pool, 2)
+        ops.append("rename:" + "/".join(pct(o) + "/" + pct(olds[0]) for o in olds))
+    for _ in range(rng.randint(1, 5)):
+        if rng.random() < 0.7:
+            ops.append(mask_op(rng, pool, L))
+        else:
+            ops.append(rng.choice(["sort", "shuffle:%d" % rng.randint(0, 999), "replace:A:GG", "replace:C:", "diffwithfirst", "replacematch",
+                                   "add:%s:%s" % (pct(rng.choice(pool)), rseq(rng, alpha, L)), "clear", "autoalpha", "setalpha:%d" % rng.choice([0, 1]),
+                                   "rmgapsites:1:0", "compress", "unalign", "dedup:0", "revcompseqs:" + names_arg(rng, pool),
+                                   "trimseqs:1:0", "toupper", "rename:" + pct(rng.choice(pool)) + "/" + pct(rng.choice(pool))]))
+    return Case("hist", ["A", alpha_id, prow(rows), ";".join(ops)], True, "hist-mask")
+
+
+def gen_inplace(rng):
+    """histories around the operations that rewrite residues in place without touching names, order or lengths:
+    ReverseComplementSequences (named subset: known / unknown / repeated names, a name two rows share after a rename, residues
+    without a complement in a named or in an unnamed row, wrong alphabet, no row, no column, a sequence set with ragged rows),
+    DiffWithFirst / ReplaceMatchChars (rows close to the first one, points already present in the first row or in the others, one
+    row, no row, after a Replace / three-frame Translate that left the rows ragged: index panics on both sides)"""
+    kind = rng.choice("AAAB")
+    alpha_id = rng.choice([1, 1, 1, 1, 0, 3, 2] if kind == "A" else [1, 1, 1, 0, 3])
+    shape = rng.choice(["plain", "plain", "nocomp", "empty", "nocols", "dups", "one", "points", "points", "near"])
+    alpha = {"plain": "ACGTUacgtuNnRYSWKMBDHV-", "nocomp": "ACGTacgt-*?.XZ", "points": "ACGT...-", "near": "ACGT.-"}.get(shape, "ACGTacgtN-")
+    if alpha_id == 0:
+        alpha = "ARNDCQEGX-"
+    L = 0 if shape == "nocols" else rng.choice([1, 2, 3, 5, 8])
+    pool = rng.sample(NAMES, 5)
+    nrows = {"empty": 0, "one": 1}.get(shape, rng.randint(2, 5))
+    rows = []
+    for i in range(nrows):
+        ln = L if kind == "A" else rng.choice([L, L, rng.randint(0, 6)])
+        sq = rseq(rng, alpha, ln)
+        if shape == "near" and rows:
+            # the first row with a few residues changed (most positions match: DiffWithFirst writes many points)
+            sq = "".join(c if rng.random() < 0.7 else rng.choice(alpha) for c in rows[0][1][:ln]).ljust(ln, "A")
+        rows.append((rng.choice(pool) if shape == "dups" else pool[i % len(pool)], sq))
+    ops = []
+    if rng.random() < 0.3:
+        olds = rng.sample(pool, rng.randint(2, 3))
+        tgt = rng.choice(pool + ["new1"])
+        ops.append("rename:" + "/".join(pct(o) + "/" + pct(tgt) for o in olds))
+    for _ in range(rng.randint(1, 5)):
+        k = rng.random()
+        if k < (0.2 if shape in ("points", "near") else 0.5):
+            ops.append("revcompseqs:" + names_arg(rng, pool + ["new1"]))
+        elif k < 0.7:
+            ops.append(rng.choice(["diffwithfirst", "diffwithfirst", "replacematch", "replacematch",
+                                   "replace:%s:%s" % (rng.choice("ACGT."), rng.choice(["", "..", "N"])), "translate:-1:0"]))
+        else:
+            ops.append(rng.choice([
+                "revcomp", "toupper", "sort", "shuffle:%d" % rng.randint(0, 999), "dedup:0", "clone", "autoalpha",
+                "setalpha:%d" % rng.choice([0, 1]), "add:%s:%s" % (pct(rng.choice(pool)), rseq(rng, alpha, L)),
+                "setchar:%d:%d:%s" % (rng.randint(0, 3), rng.randint(0, max(L, 1)), rng.choice("ACGT-N*")),
+                "replacechar:%s:%d:%s" % (pct(rng.choice(pool)), rng.randint(0, max(L, 1)), rng.choice("ACGT-N*")),
+                "rename:" + pct(rng.choice(pool)) + "/" + pct(rng.choice(pool)), "unalign", "compress", "rmgapsites:0:0",
+                "cleannames", "filter:1:-1", "clear"]))
+    return Case("hist", [kind, alpha_id, prow(rows), ";".join(ops)], True, "hist-inplace-" + shape)
+
+
 def _gen_core(rng, tier):
+    for _ in range(300 if tier == "quick" else 3000):
+        yield gen_inplace(rng)
+    for _ in range(300 if tier == "quick" else 3000):
+        yield gen_mask(rng)
     for _ in range(400 if tier == "quick" else 4000):
         yield gen_unalign_rename(rng)
     for _ in range(150 if tier == "quick" else 1500):
